@@ -226,10 +226,15 @@ def gen_program(rng, idx):
             prog.append({"t": "t1", "op": "split", "k": k})
         elif x < 0.95 and pess1:
             prog.append({"t": "t1", "op": "fu_take"})
-        else:
+        elif x < 0.975 or not pess1:
             prog.append({"t": "t1", "op": "get", "k": k})
+        else:
+            # quiescent point: the store's locks of t1 are compared with the model's lock set after its pending tasks ran
+            prog.append({"t": "t1", "op": "audit"})
     if agg:
         prog.append({"t": "t1", "op": rng.choice(["agg_done", "agg_cancel"])})
+    if pess1 and rng.random() < 0.3:
+        prog.append({"t": "t1", "op": "audit"})
     prog.append({"t": "t1", "op": rng.choice(["commit", "commit", "rollback"])})
     if not t2_done:
         prog.append({"t": "t2", "op": rng.choice(["commit", "rollback"])})
@@ -458,8 +463,12 @@ def gen_agg_program(rng, idx):
             agg = False
             break
         prog.append({"t": "t1", "op": "agg_retry"})
+        if rng.random() < 0.2:
+            prog.append({"t": "t1", "op": "audit"})      # quiescent point inside the mode: store vs model lock set
     if agg:
         prog.append({"t": "t1", "op": rng.choice(["agg_done", "agg_cancel"])})
+    if rng.random() < 0.3:
+        prog.append({"t": "t1", "op": "audit"})
     if rng.random() < 0.3:
         prog.append(lock_step(rng.sample(KEYS, rng.choice([1, 2]))))
     if rng.random() < 0.3:
@@ -546,6 +555,7 @@ def side_oracles(sc, r, exp=None):
     S = info["start"]
     steps = [s for s in r.get("steps", []) if s.get("t") == "t1" and "bk" in s and not s.get("skipped")]
     tracked = lambda bk: set(bk["locked"]) | set(bk["agg_cur"]) | set(bk["agg_prev"])
+    inside = {x["i"]: x.get("inside") for x in (exp or [])}
     done = False
     for s in steps:
         if s["op"] in ("commit", "rollback"):
@@ -556,7 +566,9 @@ def side_oracles(sc, r, exp=None):
         if not done and bk.get("primary") and bk["primary"] not in tracked(bk):
             out.append(f"(P) after step {s['i']} ({s['op']}{' ' + s['err'] if s.get('err') else ''}) the primary {bk['primary']!r} is not a key the client holds (locked {sorted(tracked(bk))})")
             break
-        if not done and s["op"] == "audit":
+        if not done and s["op"] == "audit" and inside.get(s["i"]) is not False:
+            # (judged inside the contract of C06_tracked_keys_hold_locks only — the model driver evaluates it along the replay;
+            #  e.g. a retry with the SAME for-update ts legitimately loses its lock to the late rollback of the failed call)
             miss = [k for k in bk["locked"] if (s.get("locks") or {}).get(k) != S]
             if miss:
                 out.append(f"(A) at step {s['i']} the client has {sorted(bk['locked'])} flagged as locked but the store holds no lock of the transaction on {miss}")
@@ -763,6 +775,10 @@ def main(tier, replay):
         if mres:
             steps_cmp += len(mres[2])
             for x in mres[2]:
+                if x["op"] == "audit":
+                    kk = ("audit:" + ("lock-set-compared-with-model" if x.get("audit_locks") is not None else "not-compared")
+                          + (":inside-held-contract" if x.get("inside") else ":outside-held-contract"))
+                    counts[kk] = counts.get(kk, 0) + 1
                 if x["op"] in ("lock", "insert") and x["rpc_keys"] is not None:
                     p = x["line"].split("\t")
                     exflag, p = p[-1], p[:-1]
